@@ -50,7 +50,11 @@ func (ex *Exec) oblName(kind string, ord, i int, cl *Clause) string {
 }
 
 func (ex *Exec) envAt(st *State, pos token.Pos) *Env {
-	return &Env{ex: ex, names: map[string]Val{}, cur: st, old: ex.old, pos: pos, pkg: ex.pkg.Types}
+	env := &Env{ex: ex, names: map[string]Val{}, cur: st, old: ex.old, pos: pos, pkg: ex.pkg.Types}
+	for k, v := range st.extra {
+		env.names[k] = v
+	}
+	return env
 }
 
 func (ex *Exec) assertClause(st *State, env *Env, kind string, i int, cl *Clause, pos token.Pos) {
@@ -308,6 +312,7 @@ func (ex *Exec) prepare(decl *ast.FuncDecl) {
 	ex.allLits = map[*ast.FuncLit]bool{}
 	ex.freshSliceVars = map[*types.Var]bool{}
 	notFresh := map[*types.Var]bool{}
+	notFreshPtr := map[*types.Var]bool{}
 	isFreshExpr := func(e ast.Expr, self *types.Var) bool {
 		switch x := unparen(e).(type) {
 		case *ast.CompositeLit:
@@ -404,6 +409,22 @@ func (ex *Exec) prepare(decl *ast.FuncDecl) {
 				}
 				if o == nil {
 					continue
+				}
+				if _, isPtr := o.Type().Underlying().(*types.Pointer); isPtr {
+					fresh := false
+					if len(s.Rhs) == len(s.Lhs) {
+						if u, ok := unparen(s.Rhs[i]).(*ast.UnaryExpr); ok && u.Op == token.AND {
+							if _, ok := unparen(u.X).(*ast.CompositeLit); ok {
+								fresh = true
+							}
+						}
+					}
+					if fresh && !notFreshPtr[o] {
+						ex.freshPtrVars[o] = true
+					} else {
+						notFreshPtr[o] = true
+						delete(ex.freshPtrVars, o)
+					}
 				}
 				if len(s.Rhs) == len(s.Lhs) {
 					if lit, ok := unparen(s.Rhs[i]).(*ast.FuncLit); ok {
